@@ -117,15 +117,27 @@ Definition scC (sr tr : ity) (den c : Z) : outcome Z :=
   let v := cast tr q in
   if negb (cast op v =? q) || sign_mismatch q v then Err OutOfRange else Ok v.
 
+Definition scD (sr tr : ity) (num den c : Z) : outcome Z :=
+  let op := common3 tr sr I64 in
+  if is_signed sr && negb (is_signed tr) && (c <? 0) then Err OutOfRange else
+  if negb (Z.rem (cast op c) (cast op den) =? 0) then Err OutOfRange else
+  q <- cdiv op (cast op c) (cast op den) ;;
+  hi <- cdiv op (tmax op) (cast op num) ;;
+  lo <- cdiv op (tmin op) (cast op num) ;;
+  if (hi <? q) || (q <? lo) then Err OutOfRange else
+  v <- arith op (q * cast op num) ;;
+  let t := cast tr v in
+  if negb (v =? cast op t) || sign_mismatch v t then Err OutOfRange else Ok t.
+
 Lemma safe_cast_unfold from to c :
   safe_cast from to c =
   if dty_eqb from to then Ok c else
   let '(num, den) := ratio_div from to in
   if den =? 1 then (if num =? 1 then scA (d_rep from) (d_rep to) c else scB (d_rep from) (d_rep to) num c)
   else if num =? 1 then scC (d_rep from) (d_rep to) den c
-  else safe_cast from to c.
+  else scD (d_rep from) (d_rep to) num den c.
 Proof.
-  unfold safe_cast, scA, scB, scC. destruct (dty_eqb from to); [reflexivity|].
+  unfold safe_cast, scA, scB, scC, scD. destruct (dty_eqb from to); [reflexivity|].
   destruct (ratio_div from to) as [num den].
   destruct (den =? 1); [destruct (num =? 1); reflexivity|]. destruct (num =? 1); reflexivity.
 Qed.
@@ -285,3 +297,38 @@ Proof.
     rewrite (castA' op tr q Hq).
     destruct (fits tr q) eqn:Ef; cbn [negb]; [rewrite cast_fits by exact Ef|]; reflexivity.
 Qed.
+
+(* --- case D: a reduced ratio with num >= 2 and den >= 2: exact only for multiples of den, then case B on the quotient --- *)
+
+Lemma scD_spec sr tr num den c :
+  rep4 sr -> rep4 tr -> 2 <= num <= 4611686018427387904 -> 2 <= den <= 4611686018427387904 -> fits sr c = true ->
+  scD sr tr num den c =
+  if (Z.rem c den =? 0) && fits tr (Z.quot c den * num) then Ok (Z.quot c den * num) else Err OutOfRange.
+Proof.
+  intros Hsr Htr Hnum Hden Hc. unfold scD. cbv zeta.
+  set (op := common3 tr sr I64).
+  destruct (quot_facts c den ltac:(lia)) as (E & Br & Hpos & Hneg).
+  destruct (is_signed sr && negb (is_signed tr) && (c <? 0)) eqn:Eneg.
+  - apply andb_true_iff in Eneg. destruct Eneg as [Eneg Hc0]. apply andb_true_iff in Eneg. destruct Eneg as [_ Htu].
+    assert (Etr : tr = U64) by (destruct Htr as [?|[?|[?|?]]]; subst tr; cbn in Htu; congruence). subst tr.
+    destruct (Z.eqb_spec (Z.rem c den) 0) as [Er|Er]; cbn [andb]; [|reflexivity].
+    replace (fits U64 (Z.quot c den * num)) with false; [reflexivity|].
+    symmetry. apply Bool.not_true_iff_false. rewrite fits_U64. nia.
+  - assert (Hcc : cast op c = c).
+    { apply cast_fits. subst op. destruct Hsr as [?|[?|[?|?]]], Htr as [?|[?|[?|?]]]; subst sr tr;
+        cbv [common3 common_rep ity_eqb uac promote]; cbn [is_signed negb andb] in *; unfits; lia. }
+    assert (Hdo : cast op den = den).
+    { apply cast_fits. destruct (op_cases tr sr) as [E1|E1]; fold op in E1; rewrite E1; fits_tac. }
+    rewrite Hcc, Hdo. unfold cdiv at 1. replace (den =? 0) with false by lia.
+    destruct (Z.eqb_spec (Z.rem c den) 0) as [Er|Er]; cbn [negb andb]; [|reflexivity].
+    set (q := Z.quot c den) in *.
+    assert (Hq : fits op q = true).
+    { subst op. destruct Hsr as [?|[?|[?|?]]], Htr as [?|[?|[?|?]]]; subst sr tr;
+        cbv [common3 common_rep ity_eqb uac promote]; cbn [is_signed negb andb] in *; unfits; lia. }
+    assert (Hqs : fits sr q = true).
+    { clear - Hsr Hc Hpos Hneg. subst q. destruct Hsr as [?|[?|[?|?]]]; subst sr; unfits; lia. }
+    rewrite (arith_fits _ _ Hq), bind_ok.
+    pose proof (scB_spec sr tr num q Hnum Hqs) as HB. unfold scB in HB. cbv zeta in HB. fold op in HB.
+    rewrite (cast_fits op q Hq) in HB. exact HB.
+Qed.
+
